@@ -3,6 +3,7 @@ import MosnVerif.Model.FrameChk
 import MosnVerif.Model.FrameSpec
 import MosnVerif.Model.FrameH2
 import MosnVerif.Model.FrameHpack
+import MosnVerif.Model.HpackEmit
 /-! driver of C08 (malformed input contained): see `run` for the case kinds. Core Lean only. -/
 namespace MosnVerif.Drive.C08
 open MosnVerif.Drive MosnVerif.Model.Framing MosnVerif.Model.FrameBytes MosnVerif.Model.FrameChk MosnVerif.Model.KVBlock
@@ -84,12 +85,43 @@ def hpackK (maxs bytes : String) (impl : List String) : String :=
       s!"{if o == m then "A" else "D"} {if spec then "S" else "V"} {m}"
   | _, _, _ => "E E bad-case"
 
+section hpackx
+open MosnVerif.Model.HpackTable MosnVerif.Model.HpackEmit
+
+def fieldTok (f : Field) : String := s!"f{if f.sensitive then "1" else "0"}:{hex f.name}:{hex f.value}"
+def fieldsTok (l : List Field) : String := if l.isEmpty then "-" else joinWith "+" (l.map fieldTok)
+
+/-- decode the blocks one after the other on ONE decoder (table lookups through the regenerated, checked `Decoder.at`);
+a failed block ends the run (the decoder is not used after an error) -/
+def hpackxRun (d : DecE) : List Bytes → List String
+  | [] => []
+  | b :: r =>
+    match d.decodeFullP codePolicy (fun (_ : Unit) _ => ((), false)) () b with
+    | .ok (d', _, fs) => s!"ok:{fieldsTok fs}" :: hpackxRun d' r
+    | .error .panic => ["panic"]
+    | .error (.dec _) => ["err"]
+
+/-- `hpackx <maxStrLen> <block>,<block>… => <ok:fields | err | panic | hang>,…`: the real `hpack.Decoder.DecodeFull` on
+a sequence of header blocks on one decoder (indexed fields, literals with name indices, Huffman strings, size
+updates): complete model (Model/HpackTable + HpackEmit + checked `at`), outputs must agree; predicate: no panic, no hang -/
+def hpackX (maxs blocks : String) (impl : List String) : String :=
+  match maxs.toNat?, (blocks.splitOn ",").mapM unhex, impl with
+  | some mx, some bs, [o] =>
+    let outs := o.splitOn ","
+    let spec := !(outs.contains "panic") && !(outs.contains "hang")
+    let d0 : DecE := { base := { Dec.new 4096 with maxStrLen := mx }, emit := true }
+    let m := joinWith "," (hpackxRun d0 bs)
+    s!"{if m == o then "A" else "D"} {if spec then "S" else "V"} {m}"
+  | _, _, _ => "E E bad-case"
+end hpackx
+
 def run (caseToks impl : List String) : String :=
   match caseToks with
   | ["dec", proto, bytes] => dec proto bytes impl
   | ["kv", bytes] => kv bytes impl
   | ["h2dec", bytes] => h2dec bytes impl
   | ["hpack", mx, bytes] => hpackK mx bytes impl
+  | ["hpackx", mx, blocks] => hpackX mx blocks impl
   | ["contain", _, _] =>
     -- containment run (support): the probe client must have been answered after this malformed connection
     (match impl with
